@@ -162,6 +162,27 @@ def apply_step(pool, step, cfg):
         groups = tuple((axis, axis + 1) if k == axis else k for k in range(r1.ndim) if k != axis + 1)
         f = r1.fuse_legs(axes=groups, mode=mode)
         return [r1, f, f.remove_leg(axis=axis)]
+    if op == "mixed_partial":
+        _, i, pads, p, sizes, modes, sel = step
+        a = pool[i]
+        for axis, sg in pads:
+            a = a.add_leg(axis=axis, s=sg)
+        groups, k = [], 0
+        for g in sizes:
+            groups.append(tuple(p[k:k + g]))
+            k += g
+        # hard groups first (meta groups stay as runs of plain legs), then the meta groups on top
+        ax1, pos, k = [], [], 0
+        for grp, m in zip(groups, modes):
+            if m == "hard":
+                ax1.append(grp); pos.append((k,)); k += 1
+            else:
+                ax1.extend(grp); pos.append(tuple(range(k, k + len(grp)))); k += len(grp)
+        f1 = a.fuse_legs(axes=tuple(ax1), mode="hard") if any(m == "hard" for m in modes) else a.transpose(tuple(x for g in groups for x in g))
+        ax2 = tuple(q if m == "meta" else q[0] for q, m in zip(pos, modes)) if any(m == "meta" for m in modes) else None
+        f2 = f1.fuse_legs(axes=tuple(q if len(q) > 1 else q[0] for q in pos), mode="meta") if ax2 is not None else f1
+        u = f2.unfuse_legs(axes=tuple(sel) if len(sel) > 1 else sel[0])
+        return [f2, u]
     if op == "vdot":
         return [yastn.vdot(pool[step[1]], pool[step[2]])]
     if op == "norm":
@@ -305,7 +326,30 @@ def propose(pool, rng, fermionic, fuse_modes=(None, None, "hard", "meta")):
     kind = rng.choice(("transpose", "conj", "scale", "add", "tensordot", "tensordot", "tensordot", "trace", "fuse", "fuse",
                        "unfuse", "svd", "qr", "add_leg", "remove_leg", "vdot", "norm", "swap_gate", "ncon", "broadcast",
                        "mask", "lazy", "diag", "flip_charges", "to_dict", "zero_block", "remove_zero_blocks", "unit_legs",
-                       "addn_lazy", "add_mismatch"))
+                       "addn_lazy", "add_mismatch", "mixed_partial"))
+    if kind == "mixed_partial":
+        # plain tensor of rank 2..5 padded with unit legs to 5-6 native legs; groups fused hard / meta / left plain side by side;
+        # ONE unfuse_legs call on a subset of the fused legs, then the rest
+        i = pick(lambda t: 2 <= t.ndim <= 5 and not t.isdiag and not any(is_fused(l) for l in t.get_legs()))
+        if i is None:
+            return None
+        a = pool[i]
+        total = rng.choice((5, 6, 6)) if a.ndim <= 5 else a.ndim
+        total = max(total, a.ndim)
+        pads = [(rng.randint(0, a.ndim + k), rng.choice((1, -1))) for k in range(total - a.ndim)]
+        p = list(range(total)); rng.shuffle(p)
+        sizes = rng.choice(((2, 2, 2), (2, 2, 2), (2, 3, 1), (2, 2, 1, 1), (3, 2, 1), (2, 1, 2), (1, 2, 2, 1), (2, 2, 1))) if total == 6 else \
+            rng.choice(((2, 2, 1), (2, 1, 2), (1, 2, 2), (2, 3), (3, 2)))
+        if sum(sizes) != total:
+            sizes = tuple(sizes) + (1,) * (total - sum(sizes)) if sum(sizes) < total else (2,) * (total // 2) + (1,) * (total % 2)
+        modes = [rng.choice(("hard", "meta")) if g > 1 else "plain" for g in sizes]
+        if rng.random() < 0.5 and len([g for g in sizes if g > 1]) >= 3:
+            big = [k for k, g in enumerate(sizes) if g > 1]
+            for k, m in zip(big, ("hard", "meta", "hard")):
+                modes[k] = m
+        fused = [k for k, m in enumerate(modes) if m != "plain"]
+        sel = sorted(rng.sample(fused, rng.randint(1, len(fused))))
+        return ("mixed_partial", i, pads, p, tuple(sizes), tuple(modes), tuple(sel))
     if kind == "transpose":
         i = pick(lambda t: t.ndim >= 2 and not t.isdiag)
         if i is None:
